@@ -34,6 +34,8 @@ Record qstep := mkStep {
   q_watches : list path;       (* implementation: fsnotify WatchList *)
   q_nvals : N;                 (* implementation: values reported so far (incl. the initial one) *)
   q_nerrs : N;                 (* implementation: errors reported so far *)
+  q_nio : N;                   (* ... of which not from the decoder: open/read failures other than
+                                  not-exist, i.e. transient IOErr reads of the environment *)
   q_last : option N;           (* implementation: last reported value *)
   q_lasterr : bool             (* implementation: the last report was an error *)
 }.
@@ -81,7 +83,8 @@ Definition model_step (cfg : path) (st : lstate) (wino : N) (s : qstep) : lstate
 (* implementation = model on the observables of this step *)
 Definition step_agrees (st0 st : lstate) (prev s : qstep) : bool :=
   let dm := n_errors (st_reports st) - n_errors (st_reports st0) in
-  let di := q_nerrs s - q_nerrs prev in
+  let dio := q_nio s - q_nio prev in
+  let di := (q_nerrs s - q_nerrs prev) - dio in
   let newval := negb (n_values (st_reports st) =? n_values (st_reports st0)) in
   (* a multi-event operation lets the loop re-read the previous content *)
   let prev_bad := match q_read prev with
@@ -97,7 +100,7 @@ Definition step_agrees (st0 st : lstate) (prev s : qstep) : bool :=
      | _ => if dm =? 0 then (di =? 0) || q_transient s || prev_bad else 0 <? di
      end
   && (Bool.eqb (q_lasterr s) exp_lasterr
-      || (q_transient s && negb newval && q_lasterr s)).
+      || ((q_transient s || (0 <? dio)) && negb newval && q_lasterr s)).
 
 (* the property itself, on the implementation's observables and the ground
    truth only: converged to decode(final) / stays at the last good value with
@@ -157,7 +160,7 @@ Fixpoint walk (cfg : path) (cands : list (lstate * N)) (good : option N) (prev :
 
 (* what dials.Config's initial Source.Value() saw *)
 Definition first_step (r0 : path) : qstep :=
-  mkStep OStart (Content 0) (Some r0) 1 [] [] false [] [] 1 0 (Some 0) false.
+  mkStep OStart (Content 0) (Some r0) 1 [] [] false [] [] 1 0 0 (Some 0) false.
 
 (* Known-finding class 2 (racing histories): the target of the symlinked config
    path is deleted alone (dangling symlink) before the loop has started to
